@@ -244,6 +244,24 @@ public:
                              .set("expected", jC(want)).set("got", jC(g)).set("what", isT ? "element differs from dense reference" : "object not involved in the operation changed / differs"));
                 }
             }
+            // element addresses: a view must alias exactly the owner's elements its map names
+            // (finds wrong element maps even when the values involved happen to be equal)
+            if (!o.isOwner && o.nr * o.nc > 0) {
+                Obj* ownerObj = nullptr; for (auto& q : pool) if (q->isOwner && q->own == o.own) ownerObj = q.get();
+                const int cp2 = Cplx ? 2 : 1;
+                for (int e = 0; e < o.nr * o.nc; ++e) {
+                    const void* mine = nullptr; const void* want = nullptr;
+                    withT(o.t, [&](auto tt) { constexpr int T = decltype(tt)::value; mine = (const void*)&asBase<T>(o).getElt(e % o.nr, e / o.nr); });
+                    const int oe = o.map[e];
+                    if (o.own->external) want = (const void*)(o.own->raw.data() + (size_t)oe * K * cp2);
+                    else if (ownerObj) withT(ownerObj->t, [&](auto tt) { constexpr int T = decltype(tt)::value; want = (const void*)&asBase<T>(*ownerObj).getElt(oe % ownerObj->nr, oe / ownerObj->nr); });
+                    if (want && mine != want) {
+                        bool isT = (target == nullptr) || (&o == target);
+                        fail((isT ? "value:" : "alias:") + opKey, vh::Json::obj().set("object", tag(o)).set("i", e % o.nr).set("j", e / o.nr)
+                                 .set("what", "view element does not alias the owner element its definition names (address mismatch)").set("owner_element", oe));
+                    }
+                }
+            }
             if (o.own->external) {
                 Owner& ow = *o.own; const int cp = Cplx ? 2 : 1;
                 for (size_t s = 0; s < ow.b.size(); ++s) {
